@@ -1,7 +1,7 @@
 (* C09 - validation reaches every name and type, failures are reported, not rendered.
    Statements only.  [idents] / [wtypes] are the names and cast types the rendering of a value visits. *)
-From Coq Require Import String List Bool.
-From QRB Require Import Base.Bytes Model.W Model.Values Model.Compile Model.WValid Model.CompileFacts.
+From Coq Require Import String List Bool ZArith.
+From QRB Require Import Model.Frame Model.Reach Base.Bytes Model.W Model.Values Model.Compile Model.WValid Model.CompileFacts.
 Import ListNotations.
 
 Section C09.
@@ -40,8 +40,52 @@ Section C09.
       out_idents (out s') = filter validI (idents V (compile_top e)) /\
       out_types (out s') = filter validT (wtypes V (compile_top e)).
   Proof. intros p e s' H. exact (validating_run V validI validT p (compile_top e) sb0 s' H). Qed.
+  (* value level: an invalid name or cast type written anywhere inside the value - at any depth, in any slot the
+     statement has - is reported *)
+  Theorem C09_every_written_name_is_checked :
+    forall p (e : exp V) s', run (von p) (compile_top e) sb0 = Some s' ->
+      (forall self x, reaches V e (EIdent self x) -> validI x = false -> In (EkIdent, x) (errs s')) /\
+      (forall x, reaches V e (EType x) -> validT x = false -> In (EkType, x) (errs s')).
+  Proof.
+    intros p e s' H.
+    destruct (offenders_reported V validI validT p (compile_top e) s' (compile_plain_errs V e) H) as [RI RT].
+    split.
+    - intros self x Hr Hv. apply RI. split; [exact (reached_name_in_rendering V e self x Hr)|exact Hv].
+    - intros x Hr Hv. apply RT. split; [exact (reached_type_in_rendering V e x Hr)|exact Hv].
+  Qed.
 End C09.
 
+Local Open Scope string_scope.
+(* non-vacuity: a name four levels down (CTE body -> sub-select in a function argument -> WHERE) is reached, and
+   so is a cast type in an ON CONFLICT target *)
+Definition nm (s : string) : exp nat := EIdent ENil s.
+Definition sel1 (l : list (exp nat * string)) (wh : list (exp nat)) : exp nat :=
+  ESelect [] [] (mkParts false [] None "" l [] wh false [] [] [] ENil ENil (mkLock "" [] "")).
+Definition deep : exp nat :=
+  ESelect [mkWithq false "w" [] None
+             (sel1 [(EFuncExp ENil "f" [sel1 [(nm "a", "")] [EOp (nm "bad name") "=" (EArg 1) false]], "")] []) None]
+    [] (mkParts false [] None "" [(nm "x", "")] [] [] false [] [] [] ENil ENil (mkLock "" [] "")).
+Example C09_reaches_deep : reaches nat deep (nm "bad name").
+Proof.
+  eapply r_child; [cbn; left; reflexivity|].          (* the CTE body *)
+  eapply r_child; [cbn; left; reflexivity|].          (* its select-list item: f(...) *)
+  eapply r_child; [cbn; left; reflexivity|].          (* the sub-select argument *)
+  eapply r_child; [cbn; right; left; reflexivity|].   (* its WHERE condition *)
+  eapply r_child; [cbn; left; reflexivity|]. apply r_refl.
+Qed.
+
+(* finding D5: the ORDER BY of a set-operation branch is not a written child of the statement *)
+Definition branch : parts (exp nat) :=
+  mkParts false [] None "" [(nm "a", "")] [] [] false [] [] [mkObc (nm "bad name") "" ""] ENil ENil (mkLock "" [] "").
+Definition last : parts (exp nat) :=
+  mkParts false [] None "" [(nm "b", "")] [] [] false [] [] [] ENil ENil (mkLock "" [] "").
+Example C09_D5_branch_tail_not_written :
+  ~ In (inl (nm "bad name")) (wchildren nat (ESelect [] [mkComb branch "UNION" false] last)).
+Proof. vm_compute. intro H. repeat (destruct H as [H|H]; [discriminate|]). exact H. Qed.
+
 Print Assumptions C09_only_if.
+Print Assumptions C09_every_written_name_is_checked.
+Print Assumptions C09_reaches_deep.
+Print Assumptions C09_D5_branch_tail_not_written.
 Print Assumptions C09_reports.
 Print Assumptions C09_not_emitted.
